@@ -5,12 +5,12 @@ from lib import shipped
 
 CHECK = Check(
     "C13",
-    streams=[units_stream("units", fields=["xmlast", "xmlpkg", "det", "tgt"],
+    streams=[units_stream("units", fields=["xmlast", "xmlpkg", "det", "tgt", "hist"],
                           nontrivial=lambda tags, inp: True, select=lambda tags: tags.startswith("sup") or tags.startswith("unsup"),
                           vacuous=lambda tags, o: tags.startswith("unsup") and o == "")],
     rule=("every unit of the depth<=2 enumeration for which the real generator produces output (supported or not: the units whose generated code does not compile are C14's finding, but their parse trees are compared all the same; a unit the generator refuses outright - [][]byte and the like - has no tree to compare and is counted out_of_scope_cases): the real generator is run for the file, directory and package targets "
           "and twice for the file target; XML dumps of all targets are compared (as hashes) with the dump of the two parser models; "
-          "sources must be identical across runs and targets up to the numbering of t/err/i identifiers; a regeneration into a KEPT destination (NoClean) after a same-size edit of the declarations (a renamed field) must leave on disk what a fresh destination gets, sources and XML (det=stale-src / stale-xml otherwise); plus: the package target run "
+          "a decoy declaration set that declares the units' named scalar types the other way round (Kind string, Label int32) is generated first, and the multi-field / grouped units are generated once more by a SECOND PROCESS that generated nothing before: same sources up to numbering (hist=ok) - no state may survive from one declaration set to the next; sources must be identical across runs and targets up to the numbering of t/err/i identifiers; a regeneration into a KEPT destination (NoClean) after a same-size edit of the declarations (a renamed field) must leave on disk what a fresh destination gets, sources and XML (det=stale-src / stale-xml otherwise); plus: the package target run "
           "on /repo/testobj must reproduce /repo/testobj_ins/*.go and /repo/testdata/*.xml byte for byte. distinct = distinct "
           "declaration text."),
     assumptions=["determinism of the emitted text given the node tree is observed (two runs, three targets), not proved: there is no "
